@@ -173,6 +173,9 @@ func (f *consumerGroup) consume() int64 {
 	f.lock4headSeq.Lock()
 	defer f.lock4headSeq.Unlock()
 
+	if f.closed.Load() {
+		return SeqNoNewMessageAvailable
+	}
 	headSeq := f.consumedSeq.Load() + 1
 	if headSeq <= f.q.Queue().AppendedSeq() {
 		f.consumedSeq.Store(headSeq)
@@ -188,6 +191,9 @@ func (f *consumerGroup) SetConsumedSeq(seq int64) {
 	f.lock4headSeq.Lock()
 	defer f.lock4headSeq.Unlock()
 
+	if f.closed.Load() {
+		return
+	}
 	f.consumedSeq.Store(seq)
 	f.metaPage.PutUint64(uint64(f.ConsumedSeq()), consumerGroupConsumedSeqOffset)
 }
@@ -201,6 +207,11 @@ func (f *consumerGroup) Queue() FanOutQueue {
 func (f *consumerGroup) Ack(ackSeq int64) {
 	f.lock4headSeq.RLock()
 	defer f.lock4headSeq.RUnlock()
+
+	if f.closed.Load() {
+		// the meta page is unmapped after close(a stale ack callback of data family may arrive later)
+		return
+	}
 
 	ts := f.AcknowledgedSeq()
 	hs := f.ConsumedSeq()
@@ -236,6 +247,9 @@ func (f *consumerGroup) SetSeq(seq int64) {
 	f.lock4headSeq.Lock()
 	defer f.lock4headSeq.Unlock()
 
+	if f.closed.Load() {
+		return
+	}
 	f.consumedSeq.Store(seq)
 	f.acknowledgedSeq.Store(seq)
 	f.metaPage.PutUint64(uint64(f.ConsumedSeq()), consumerGroupConsumedSeqOffset)
@@ -272,7 +286,11 @@ func (f *consumerGroup) Close() {
 	if f.closed.CompareAndSwap(false, true) {
 		f.Queue().Queue().Signal()
 
-		if err := f.metaPageFct.Close(); err != nil {
+		// wait until the writers of the meta page are done, who comes later sees closed state
+		f.lock4headSeq.Lock()
+		err := f.metaPageFct.Close()
+		f.lock4headSeq.Unlock()
+		if err != nil {
 			queueLogger.Error("close consumerGroup meta error", logger.String("consumerGroup", f.name), logger.Error(err))
 		}
 	}
